@@ -166,6 +166,11 @@ _UFUNC_MODELS = {
 def _anysym(a):
     if _is_symobj(a):
         return True
+    arr = getattr(a, "array", None)
+    if arr is not None and type(arr).__name__ == "SymArray":
+        return True
+    if type(a).__name__ == "SymArray":
+        return True
     if isinstance(a, SymND):
         return True
     if isinstance(a, _np.ndarray) and a.dtype == object:
@@ -173,6 +178,10 @@ def _anysym(a):
     if isinstance(a, (list, tuple)):
         return any(_anysym(x) for x in a)
     return False
+
+
+def _is_pandas(a):
+    return type(a).__module__.startswith("pandas")
 
 
 class SymNP:
@@ -206,25 +215,37 @@ class SymNP:
         return _UFUNC_MODELS[_np.minimum](a, b) if (_anysym(a) or _anysym(b)) else _np.minimum(a, b)
 
     def abs(self, a):
+        if _is_pandas(a):
+            return _np.abs(a)
         return _UFUNC_MODELS[_np.absolute](a) if _anysym(a) else _np.abs(a)
 
     absolute = abs
 
     def exp(self, a):
+        if _is_pandas(a):
+            return _np.exp(a)
         return _UFUNC_MODELS[_np.exp](a) if _anysym(a) else _np.exp(a)
 
     def sqrt(self, a):
+        if _is_pandas(a):
+            return _np.sqrt(a)
         return _UFUNC_MODELS[_np.sqrt](a) if _anysym(a) else _np.sqrt(a)
 
     def log(self, a):
+        if _is_pandas(a):
+            return _np.log(a)
         return _UFUNC_MODELS[_np.log](a) if _anysym(a) else _np.log(a)
 
     def isfinite(self, a):
+        if _is_pandas(a):
+            return _np.isfinite(a)
         if _anysym(a) or (isinstance(a, _np.ndarray) and a.dtype == object):
             return _UFUNC_MODELS[_np.isfinite](a)
         return _np.isfinite(a)
 
     def isnan(self, a):
+        if _is_pandas(a):
+            return _np.isnan(a)
         if _anysym(a) or (isinstance(a, _np.ndarray) and a.dtype == object):
             return _UFUNC_MODELS[_np.isnan](a)
         return _np.isnan(a)
@@ -255,6 +276,8 @@ class SymNP:
         return r
 
     def mean(self, a, *args, **k):
+        if _is_pandas(a):
+            return _np.mean(a, *args, **k)
         if _anysym(a) and not args and not k:
             a = _np.asarray(a, dtype=object).ravel()
             if len(a) == 0:
@@ -266,6 +289,8 @@ class SymNP:
         return _np.mean(a, *args, **k)
 
     def sum(self, a, *args, **k):
+        if _is_pandas(a):
+            return _np.sum(a, *args, **k)
         if _anysym(a) and not args and not k:
             a = _np.asarray(a, dtype=object).ravel()
             s = 0.0
@@ -298,6 +323,8 @@ class SymNP:
             return NAN if _np.isscalar(q) else _np.full(len(q), NAN)
         s = self.sort_sym(vals)
         n = len(s)
+        if n == 0:
+            raise IndexError("index -1 is out of bounds for axis 0 with size 0")  # as numpy.quantile on an empty array
 
         def one(qq):
             # numpy 'linear' method: virtual index (n-1)*q
